@@ -109,6 +109,53 @@ impl C10 {
             Err(p) => out.push(d("usize/panic", case, p)),
         }
     }
+    /// A sequence of codec calls on ONE fresh thread. codes: 0 field element p-1, 1 vector of 3 elements, 2 vector of
+    /// 4 097 elements, 3 a vector encoding whose count exceeds the buffer (decode refused), 4 byte vector of 257 bytes,
+    /// 5 byte-vector encoding whose count exceeds the buffer, 6 the default witness (encode, decode, JSON), 7 half a
+    /// witness encoding (refused), 8 vector of 9 elements, 9 empty vector. Each call is judged as when made alone.
+    fn seq(&self, codes: &[u8]) -> Vec<Discrepancy> {
+        let case = json!({"kind":"seq","calls":codes});
+        let codes: Vec<u8> = codes.to_vec();
+        let h = std::thread::spawn(move || -> Option<(usize, Discrepancy)> {
+            for (k, c) in codes.iter().enumerate() {
+                let mut o = vec![];
+                match c {
+                    0 => C10.field(&(p() - big(1)), &mut o),
+                    1 => C10.vec_fr(&[big(1), p() - big(1), pow2(200)], &mut o),
+                    2 => C10.vec_fr(&(0..4097u64).map(|i| big(i * 7 + 1)).collect::<Vec<_>>(), &mut o),
+                    3 => {
+                        let mut b = codec::vec_fr(&[big(1), big(2)]);
+                        b[0] = 9;
+                        if let Err(pn) = guard(|| bytes_le_to_vec_fr(&b).map(|_| ())) { o.push(d("vec_fr/malformed/panic", json!({}), pn)); }
+                    }
+                    4 => C10.vec_u8(&(0..257u32).map(|i| (i % 251) as u8).collect::<Vec<u8>>(), &mut o),
+                    5 => {
+                        let mut b = codec::vec_u8(&[1, 2, 3]);
+                        b[1] = 1;
+                        if let Err(pn) = guard(|| bytes_le_to_vec_u8(&b).map(|_| ())) { o.push(d("vec_u8/malformed/panic", json!({}), pn)); }
+                    }
+                    6 => C10.witness(&default_inputs(), false, &mut o),
+                    7 => {
+                        let b = witness_bytes(&default_inputs());
+                        if let Err(pn) = guard(|| deserialize_witness(&b[..b.len() / 2]).map(|_| ())) { o.push(d("witness/malformed/panic", json!({}), pn)); }
+                    }
+                    8 => C10.vec_fr(&(0..9u64).map(|i| pow2(250) + big(i)).collect::<Vec<_>>(), &mut o),
+                    _ => C10.vec_fr(&[], &mut o),
+                }
+                if let Some(x) = o.into_iter().next() {
+                    return Some((k, x));
+                }
+            }
+            None
+        });
+        match h.join().ok().flatten() {
+            Some((k, x)) => {
+                let tail = x.key.strip_prefix("C10/").unwrap_or(&x.key).to_string();
+                vec![Discrepancy { key: format!("C10/after-other-calls/{tail}"), case, detail: format!("call number {k} of the sequence: {}", x.detail) }]
+            }
+            None => vec![],
+        }
+    }
     /// witness encodings whose two vectors have n and m entries (any n, m): the decoder may refuse them, but what it
     /// accepts must re-encode to the same bytes, directly and through the JSON codec
     fn witness_shape(&self, n: usize, m: usize, out: &mut Vec<Discrepancy>) {
@@ -335,6 +382,7 @@ impl Prop for C10 {
                     self.witness(&ci, case["prefixes"].as_bool().unwrap_or(true), &mut out)
                 }
             }
+            "seq" => out.extend(self.seq(&case["calls"].as_array().cloned().unwrap_or_default().iter().map(|x| x.as_u64().unwrap_or(0) as u8).collect::<Vec<u8>>())),
             "witness-shape" => self.witness_shape(case["n"].as_u64().unwrap_or(20) as usize, case["m"].as_u64().unwrap_or(20) as usize, &mut out),
             "api" => {
                 self.api_bytes(&mut out);
@@ -394,13 +442,36 @@ impl Prop for C10 {
                 n += 1;
             }
         }
+        // codec call sequences on a fresh thread
+        let mut seqs: Vec<Vec<u8>> = vec![];
+        {
+            let mut cur: Vec<Vec<u8>> = vec![vec![]];
+            for _ in 0..(if q { 3 } else { 4 }) {
+                let mut next = vec![];
+                for h in &cur {
+                    for c in 0u8..10 {
+                        let mut x = h.clone();
+                        x.push(c);
+                        next.push(x);
+                    }
+                }
+                seqs.extend(next.iter().cloned());
+                cur = next;
+            }
+        }
+        let sres = par_map(&seqs, ncpu(), |_, sq| self.seq(sq));
+        for r in sres {
+            out.extend(r);
+        }
+        n += seqs.len() as u64;
+        ev.set("call_sequences_on_one_thread", json!(seqs.len()));
         n += self.requests(&mut out);
         n += self.api_bytes(&mut out);
         findings.report_all(out);
         ev.set("evaluations", json!(n));
         ev.set("distinct_nontrivial", json!(n));
         ev.set("exhaustive", json!(true));
-        ev.set("rule", json!("for every value of each encodable type over its boundary alphabet (Fr: F* + limb boundaries + byte-width boundaries 2^k-1/2^k for k in {8,16,24,248..253} + randoms; Vec<Fr> of lengths {0,1,2,3,20,21,64}; byte vectors of lengths {0,1,2,7,8,9,255,256,257,65536}; usize incl. 2^32 boundaries and 2^63; witnesses of the one-deviation grid; proving / verification requests; identity tuples): (1) zerokit's encoder output equals the independent reference encoder byte for byte, (2) zerokit's decoder applied to the reference encoding returns the value (witness values are read back through the decimal JSON export), (3) JSON witness codec round trip, (3b) witness encodings with every pair of vector lengths out of {0,1,2,3,19,20,21,40}: refused, or re-encoded to the same bytes directly and through JSON, (4) every strict prefix and +1/+32 trailing bytes of a witness encoding are refused, (5) bytes written by RLN::get_root, get_leaf, get_proof, get_empty_leaves_indices, get_serialized_rln_witness, key_gen equal the reference encoding of the ideal-tree values; every value is a distinct case"));
+        ev.set("rule", json!("for every value of each encodable type over its boundary alphabet (Fr: F* + limb boundaries + byte-width boundaries 2^k-1/2^k for k in {8,16,24,248..253} + randoms; Vec<Fr> of lengths {0,1,2,3,20,21,64}; byte vectors of lengths {0,1,2,7,8,9,255,256,257,65536}; usize incl. 2^32 boundaries and 2^63; witnesses of the one-deviation grid; proving / verification requests; identity tuples): (1) zerokit's encoder output equals the independent reference encoder byte for byte, (2) zerokit's decoder applied to the reference encoding returns the value (witness values are read back through the decimal JSON export), (3) JSON witness codec round trip, (3b) witness encodings with every pair of vector lengths out of {0,1,2,3,19,20,21,40}: refused, or re-encoded to the same bytes directly and through JSON, (3c) every sequence of up to 3 (thorough 4) codec calls over 10 calls (elements, vectors of 0 / 3 / 9 / 4097 elements, byte vectors, the witness, three malformed encodings) on a fresh thread, each judged as when made alone, (4) every strict prefix and +1/+32 trailing bytes of a witness encoding are refused, (5) bytes written by RLN::get_root, get_leaf, get_proof, get_empty_leaves_indices, get_serialized_rln_witness, key_gen equal the reference encoding of the ideal-tree values; every value is a distinct case"));
         ev.sample(json!({"kind":"fr","v":"2^248"}));
         ev.sample(json!({"kind":"vec_fr","len":0}));
         ev.sample(json!({"kind":"witness","inputs":cases[cases.len() / 2].1.to_json()}));
